@@ -43,27 +43,19 @@ theorem filter_id_of_vals (ts : List SpTok) (vals : List Token) (h : ts.map (·.
   have : x.tok ∈ vals := by rw [← h]; exact List.mem_map.mpr ⟨x, hx, rfl⟩
   simpa using hv _ this
 
-/-- **C36 for the model**: printing a statement the parser can produce (string literals over printable ASCII, tab, LF, CR,
-    NUL) and parsing the printed text yields exactly one statement with the same labels (by name) and the same nucleus
-    (label operands by name) -/
-theorem parse_print (s : Stmt) (h : StmtOk s) :
-    ∃ s', parseAst (showStmt s) = .ok [s'] ∧ s'.labels.map (·.name) = s.labels.map (·.name) ∧ s'.nucleus.erase = s.nucleus.erase := by
-  obtain ⟨hok, hseq⟩ := stmtAtoms_ok s h
-  obtain ⟨ts, hlex, hvals⟩ := lex_atoms (stmtAtoms s) hseq hok
-  rw [stmtAtoms_toks] at hvals
+/-- the parse result is determined by the token values: any text that lexes to the token values of `s` parses to `s` -/
+theorem parse_of_lex (s : Stmt) (text : List Char) (ts : List SpTok) (hlex : lex text = .ok ts)
+    (hvals : ts.map (·.tok) = labelToks s.labels ++ kindToks s.nucleus)
+    (hcc : ∀ cc o, s.nucleus = .instr (.br cc o) → cc ≠ 0) (hb : ∀ n, s.nucleus = .directive (.blkw n) → n ≠ 0) :
+    ∃ s', parseAst text = .ok [s'] ∧ s'.labels.map (·.name) = s.labels.map (·.name) ∧ s'.nucleus.erase = s.nucleus.erase := by
   have hfilter := filter_id_of_vals ts _ hvals (stmtToks_no_comment s)
-  have hkind := h.2
-  -- the parser on the token array
   have hrem : rem ⟨ts.toArray, 0⟩ = labelToks s.labels ++ kindToks s.nucleus := by
     unfold rem; simpa using hvals
-  obtain ⟨s', p', hps, hl, hn, hrem'⟩ := parseStmt_toks s.labels s.nucleus ⟨ts.toArray, 0⟩
-    (by intro cc o e; rw [e] at hkind; exact hkind.1)
-    (by intro n e; rw [e] at hkind; exact hkind.2 n rfl) hrem
+  obtain ⟨s', p', hps, hl, hn, hrem'⟩ := parseStmt_toks s.labels s.nucleus ⟨ts.toArray, 0⟩ hcc hb hrem
   refine ⟨s', ?_, hl, hn⟩
   unfold parseAst
-  rw [showStmt_atoms s h, hlex]
+  rw [hlex]
   simp only [hfilter]
-  -- first iteration: not empty, one statement; second: empty
   have hne : (⟨ts.toArray, 0⟩ : Parser).isEmpty = false := by
     rw [isEmpty_eq, hrem]
     cases hls : s.labels with
@@ -86,5 +78,17 @@ theorem parse_print (s : Stmt) (h : StmtOk s) :
   simp only [hne, Bool.false_eq_true, if_false, hps]
   rw [parseAll]
   simp only [hemp, if_true, List.reverse_cons, List.reverse_nil, List.nil_append]
+
+/-- **C36 for the model**: printing a statement the parser can produce (string literals over printable ASCII, tab, LF, CR,
+    NUL) and parsing the printed text yields exactly one statement with the same labels (by name) and the same nucleus
+    (label operands by name) -/
+theorem parse_print (s : Stmt) (h : StmtOk s) :
+    ∃ s', parseAst (showStmt s) = .ok [s'] ∧ s'.labels.map (·.name) = s.labels.map (·.name) ∧ s'.nucleus.erase = s.nucleus.erase := by
+  obtain ⟨hok, hseq⟩ := stmtAtoms_ok s h
+  obtain ⟨ts, hlex, hvals⟩ := lex_atoms (stmtAtoms s) hseq hok
+  rw [stmtAtoms_toks] at hvals
+  have hkind := h.2
+  rw [showStmt_atoms s h]
+  exact parse_of_lex s _ ts hlex hvals (by intro cc o e; rw [e] at hkind; exact hkind.1) (by intro n e; rw [e] at hkind; exact hkind.2 n rfl)
 
 end Lc3V
